@@ -39,6 +39,13 @@ theorem prologue_content (first : Bool) (line : Line) (c : Char) (r : Line) (hl 
     · simp [h2]
   simp only [prologue, he, hh, hu, Bool.false_eq_true, if_false]
 
+/-- a line whose first non-blank character is `#` is skipped -/
+theorem prologue_comment (first : Bool) (line r : Line) (hl : lstrip line = '#' :: r) : prologue first line = .skip := by
+  have he : (strip line).isEmpty = false := by rw [strip_isEmpty, hl]; rfl
+  have hh : startsWith "#" (strip line) = true := by
+    rw [startsWith_strip "#" (free_of_all (by decide)), hl]; rfl
+  simp only [prologue, he, hh, Bool.false_eq_true, if_false, if_true]
+
 /-- `startswith` on the stripped line, through the known first character -/
 theorem startsWith_strip_ne (P : String) (a : Char) (rest : Line) (hP : P.toList = a :: rest) (hf : Free isWs P.toList)
     (line : Line) (c : Char) (r : Line) (hl : lstrip line = c :: r) (h : a ≠ c) : startsWith P (strip line) = false := by
@@ -595,5 +602,145 @@ theorem readRowsT_write (c : Circuit) : readRowsT (sclText c) = .ok ((write c).r
   simp only [readRowsT, sclText, e1, numRowsPass, rowDescs, u.1, u.2.1, u.2.2, b.1, b.2.1, b.2.2, s1, s2, s3, v1, if_true,
     Bool.false_eq_true, if_false, Option.isSome_none, numRowsPass_blocks, rowDescs_blocks, List.nil_append, rowsOfDescs_map,
     write, List.map_map, Function.comp_def]
+
+/-! ### the four files together -/
+
+/-- **Text level refines record level**: `read_ispd` on the exported texts = `Ispd.read` on the exported
+records, for every circuit whose pin offsets are printable with six digits. -/
+theorem readText_write (c : Circuit) (hp : printable c = true) : readText (writeText c) = read (write c) := by
+  simp only [readText, writeText, read, readNodesT_write, readNodes_write, ok_bind, readNetsT_write c _ hp,
+    readPlaceT_write, readRowsT_write]
+
+/-! ### `write_placement` / `load_placement` -/
+
+/-- names that `write_placement` can print and `_read_place` finds again as the first token of a line -/
+def nameOk (t : Line) : Prop := Free isWsC t ∧ ∃ c r, t = c :: r ∧ c ≠ '#'
+
+def solRecs : List String → List Cell → List PlRec
+  | n :: ns, cl :: cs => ⟨n, cl.x, cl.y, orientToString cl.orient, cl.fixed⟩ :: solRecs ns cs
+  | _, _ => []
+
+theorem splitC_solLine (name : Line) (hne : name ≠ []) (hf : Free isWsC name) (cl : Cell) :
+    splitBy isWsC (solLine name cl) =
+      name :: showInt cl.x :: showInt cl.y :: (orientToString cl.orient).toList :: (if cl.fixed then ["/FIXED".toList] else []) := by
+  unfold solLine
+  rw [splitBy_tok isWsC hne hf (by decide), splitBy_tok isWsC (showInt_ne_nil _) (showInt_free _) (by decide),
+    splitBy_tok isWsC (showInt_ne_nil _) (showInt_free _) (by decide), splitBy_sep isWsC (by decide), splitBy_sep isWsC (by decide)]
+  cases cl.fixed
+  · simp only [Bool.false_eq_true, if_false, List.append_nil]
+    rw [splitBy_tok_end isWsC (orient_ne_nil _) (orient_free _)]
+  · simp only [if_true]
+    have : " /FIXED".toList = ' ' :: "/FIXED".toList := rfl
+    rw [this, splitBy_tok isWsC (orient_ne_nil _) (orient_free _) (by decide),
+      splitBy_tok_end isWsC (by decide) (free_of_all (by decide))]
+
+theorem placeLoop_sol (nm : List String) : ∀ (ns : List String) (cs : List Cell) (st : Place),
+    (∀ s ∈ ns, nameOk s.toList) →
+    placeLoop nm true st (solLines (ns.map String.toList) cs) = readPlaceLoop nm st (solRecs ns cs) := by
+  intro ns
+  induction ns with
+  | nil => intro cs st _; rfl
+  | cons n ns ih =>
+    intro cs st hok
+    cases cs with
+    | nil => rfl
+    | cons cl cs =>
+      obtain ⟨hf, ch, r, hn, hc⟩ := hok n (List.mem_cons_self ..)
+      have hne : n.toList ≠ [] := by rw [hn]; simp
+      have hws : isWs ch = false := by
+        have := hf.ws ch (by rw [hn]; exact List.mem_cons_self ..)
+        exact this
+      have hl : lstrip (solLine n.toList cl) = ch :: (r ++ '\t' :: (showInt cl.x ++ '\t' :: (showInt cl.y ++ '\t' :: ':' :: ' ' ::
+          ((orientToString cl.orient).toList ++ (if cl.fixed then " /FIXED".toList else []))))) := by
+        unfold solLine
+        rw [hn, List.cons_append, lstrip_nonws hws]
+      have hp := prologue_content true (solLine n.toList cl) ch _ hl hc (Or.inr rfl)
+      simp only [List.map_cons, solLines, placeLoop, hp, splitC_strip, splitC_solLine n.toList hne hf cl, solRecs, readPlaceLoop]
+      have hstep : placeOfVals nm st (n.toList :: showInt cl.x :: showInt cl.y :: (orientToString cl.orient).toList ::
+            (if cl.fixed then ["/FIXED".toList] else [])) =
+          readPlaceStep nm st ⟨n, cl.x, cl.y, orientToString cl.orient, cl.fixed⟩ := by
+        simp only [placeOfVals, String.ofList_toList, pyInt_showInt, readPlaceStep]
+        cases lookup n nm <;> cases orientOfName (orientToString cl.orient) <;> rfl
+      rw [hstep]
+      cases readPlaceStep nm st ⟨n, cl.x, cl.y, orientToString cl.orient, cl.fixed⟩ with
+      | error e => rfl
+      | ok st' =>
+        simp only []
+        rw [ih cs st' (fun s hs => hok s (List.mem_cons_of_mem _ hs))]
+        rfl
+
+theorem lookup_nodup : ∀ (nm : List String) (i : Nat) (s : String), nm.Nodup → nm[i]? = some s → lookup s nm = some i := by
+  intro nm
+  induction nm with
+  | nil => intro i s _ h; simp at h
+  | cons n nm ih =>
+    intro i s hnd h
+    rw [List.nodup_cons] at hnd
+    cases i with
+    | zero =>
+      simp only [List.getElem?_cons_zero, Option.some.injEq] at h
+      subst h
+      simp [lookup, lookup_none hnd.1]
+    | succ j =>
+      simp only [List.getElem?_cons_succ] at h
+      simp [lookup, ih j s hnd.2 h]
+
+theorem readPlaceLoop_sol (nm : List String) (hnd : nm.Nodup) (cs : List Cell)
+    (hc : cs.all (fun cl => isProper cl.orient) = true) :
+    ∀ pre : List Cell, pre.length + cs.length = nm.length →
+      readPlaceLoop nm (placeAfter pre cs.length) (solRecs (nm.drop pre.length) cs) = .ok (placeAfter (pre ++ cs) 0) := by
+  induction cs with
+  | nil => intro pre _; cases nm.drop pre.length <;> simp [readPlaceLoop, solRecs, pure_eq_ok]
+  | cons cl cs ih =>
+    intro pre hn
+    simp only [List.all_cons, Bool.and_eq_true] at hc
+    simp only [List.length_cons] at hn
+    have hlt : pre.length < nm.length := by omega
+    have hd : nm.drop pre.length = nm[pre.length] :: nm.drop (pre.length + 1) := List.drop_eq_getElem_cons hlt
+    have hl := lookup_nodup nm pre.length nm[pre.length] hnd (List.getElem?_eq_getElem hlt)
+    have hx := set_mid (pre.map (·.x)) 0 cl.x cs.length
+    have hy := set_mid (pre.map (·.y)) 0 cl.y cs.length
+    have ho := set_mid (pre.map (fun c => some c.orient)) none (some cl.orient) cs.length
+    simp only [List.length_map] at hx hy ho
+    have ih' := ih hc.2 (pre ++ [cl]) (by simp; omega)
+    simp only [List.length_append, List.length_cons, List.length_nil, Nat.zero_add, List.append_assoc,
+      List.cons_append, List.nil_append] at ih'
+    rw [hd]
+    simp only [solRecs, readPlaceLoop, readPlaceStep, hl, orientOfName_toString cl.orient hc.1, ok_bind,
+      pure_eq_ok, placeAfter, List.length_cons, hx, hy, ho]
+    simpa [placeAfter] using ih'
+
+theorem setPlacement_maps : ∀ (cs ds : List Cell), cs.length = ds.length →
+    (setPlacement cs (ds.map (·.x)) (ds.map (·.y)) (ds.map (·.orient))).map (fun cl => (cl.x, cl.y, cl.orient)) =
+        ds.map (fun cl => (cl.x, cl.y, cl.orient)) ∧
+    (setPlacement cs (ds.map (·.x)) (ds.map (·.y)) (ds.map (·.orient))).map (fun cl => (cl.w, cl.h, cl.fixed, cl.obstruction, cl.pol)) =
+        cs.map (fun cl => (cl.w, cl.h, cl.fixed, cl.obstruction, cl.pol))
+  | [], [], _ => ⟨rfl, rfl⟩
+  | [], _ :: _, h => by simp at h
+  | _ :: _, [], h => by simp at h
+  | c :: cs, d :: ds, h => by
+    have ih := setPlacement_maps cs ds (by simpa using h)
+    simp only [List.map_cons, setPlacement, ih.1, ih.2, and_self]
+
+/-- `load_placement(write_placement(c))` into a circuit `c0` with the same cell names -/
+theorem loadPlacement_writePlacement (nm : List String) (c c0 : Circuit) (hnd : nm.Nodup)
+    (hok : ∀ s ∈ nm, nameOk s.toList) (hlen : nm.length = c.cells.length) (hlen0 : c0.cells.length = c.cells.length)
+    (hc : c.cells.all (fun cl => isProper cl.orient) = true) :
+    loadPlacement nm (writePlacementText (nm.map String.toList) c) c0 =
+      .ok { c0 with cells := setPlacement c0.cells (c.cells.map (·.x)) (c.cells.map (·.y)) (c.cells.map (·.orient)) } := by
+  have hu : prologue false "UCLA pl 1.0".toList = .first := by decide
+  have h1 : prologue true "# Created by Coloquinte".toList = .skip :=
+    prologue_comment true _ " Created by Coloquinte".toList (lstrip_nonws (c := '#') (by decide) _)
+  have h2 : prologue true "# https://github.com/Coloquinte/PlaceRoute".toList = .skip :=
+    prologue_comment true _ " https://github.com/Coloquinte/PlaceRoute".toList (lstrip_nonws (c := '#') (by decide) _)
+  have hb : prologue true [] = .skip := rfl
+  have hB := readPlaceLoop_sol nm hnd c.cells hc [] (by simp; omega)
+  simp only [List.length_nil, List.drop_zero, List.nil_append] at hB
+  have hA := placeLoop_sol nm nm c.cells (placeAfter [] c.cells.length) hok
+  have hinit : (⟨List.replicate nm.length 0, List.replicate nm.length 0, List.replicate nm.length none⟩ : Place) =
+      placeAfter [] c.cells.length := by simp [placeAfter, hlen]
+  simp only [loadPlacement, readPlaceT, writePlacementText, placeLoop, hu, h1, h2, hb, hinit, hA, hB]
+  simp only [placeAfter, List.replicate_zero, List.append_nil, List.length_map, hlen0, ne_eq, not_true_eq_false, if_false,
+    allSome_map]
 
 end ColoVerif.Ispd.Text
